@@ -31,7 +31,7 @@ TECHNIQUE = ("fault enumeration on the on-disk cache (every/stratified truncatio
              "result is compared with a from-scratch scan")
 RULE = ("one case = (small tree, fault) or (small tree, sequence fault-scan-fault-scan); faults: truncation of the cache file at a byte "
         "offset (all offsets in the thorough tier, stratified in quick), empty file, non-JSON texts, every key deleted at every level, "
-        "every value replaced by each wrong JSON type, cache directory without the file / without CACHEDIR.TAG / without .gitignore, "
+        "every value replaced by each wrong JSON type, every single byte overwritten by a byte that is invalid UTF-8, cache directory without the file / without CACHEDIR.TAG / without .gitignore, "
         "interrupted write after k bytes with OSError(ENOSPC) or KeyboardInterrupt (simulated by wrapping Path.write_text) and REAL "
         "interrupted writes (RLIMIT_FSIZE = k makes the operating system cut the scan's own cache write short) in four scenarios "
         "(first scan, unchanged rescan, same-length edit, other edit); "
@@ -44,7 +44,7 @@ BOUNDS = {"quick": dict(n=32, offsets=0, struct=1, crash=400, seq=160, kills=0, 
 EXHAUSTIVE = {"quick": True, "thorough": True}
 EXHAUSTIVE_SCOPE = {t: "every truncation offset of 3 small reports; all single-key deletions and single-value type replacements; "
                        "crash points, sequences and kills are sampled" for t in BOUNDS}
-MINIMUM = {"quick": {"monitor.recovery_scans": 5000, "faults.truncation": 3000, "faults.key_deleted": 150, "faults.wrong_type": 1200, "faults.interrupted_write": 250, "faults.real_interrupted_write": 400,
+MINIMUM = {"quick": {"monitor.recovery_scans": 5000, "faults.truncation": 3000, "faults.key_deleted": 150, "faults.wrong_type": 1200, "faults.interrupted_write": 250, "faults.real_interrupted_write": 400, "faults.corrupt_byte": 3000,
                      "faults.real_interrupted_write.same_length_edit": 100},
            "thorough": {"monitor.recovery_scans": 20000, "faults.truncation": 3000, "faults.key_deleted": 150, "faults.wrong_type": 1200, "faults.interrupted_write": 4000}}
 PY = "/venv/bin/python"
@@ -334,6 +334,16 @@ def run(shard, ctx):
                 if k % shard["parts"] != shard["part"]:
                     continue
                 static_fault(ctx, ti, valid, root, f"truncate@{off}", "truncation", valid[:off])
+            # one byte overwritten by a high byte (bit flip, bad sector): the file is no longer valid UTF-8; a reader that skips
+            # undecodable bytes would see a well-formed document with a digit or a letter missing
+            vb = valid.encode()
+            for off in range(0, len(vb)):
+                k += 1
+                if k % shard["parts"] != shard["part"]:
+                    continue
+                bad = bytes([0x80 | (vb[off] & 0x7F)]) if vb[off] < 0x80 else b"\xff"
+                static_fault(ctx, ti, valid, root, f"corrupt_byte@{off}", "corrupt_byte", None,
+                             lambda d, off=off, bad=bad: open(os.path.join(d, "codelimit.json"), "wb").write(vb[:off] + bad + vb[off + 1:]))
             for kind, label, text in structural_faults(valid):
                 k += 1
                 if k % shard["parts"] != shard["part"]:
@@ -411,6 +421,14 @@ def replay(case, ctx):
         labels = case.get("sequence") or [case["fault"]]
         table = {label: text for _, label, text in structural_faults(valid)}
         for label in labels:
+            if label.startswith("corrupt_byte@"):
+                vb = valid.encode()
+                off = int(label.split("@")[1])
+                bad = bytes([0x80 | (vb[off] & 0x7F)]) if vb[off] < 0x80 else b"\xff"
+                with open(cache_path(root), "wb") as f:
+                    f.write(vb[:off] + bad + vb[off + 1:])
+                judge_recovery(ctx, root, case, label)
+                continue
             if label.startswith("truncate@"):
                 text = valid[: int(label.split("@")[1])]
             elif label in table:
